@@ -1,6 +1,214 @@
-(* Properties/C03.v — placeholder while the proofs are being built. *)
-From Coq Require Import ZArith List.
-From Synnax Require Import Common.Telem Cesium.Domain.
-Theorem C03_placeholder : d_ptrs (init 1 1) = nil.
-Proof. reflexivity. Qed.
-Print Assumptions C03_placeholder.
+(* Properties/C03.v — Cesium never stores overlapping data; conflicting writes fail cleanly.
+   Only statements, each closed by [exact]/short glue, each followed by Print Assumptions.
+
+   Model: Cesium/Domain.v (a faithful copy of cesium/internal/domain index / writer /
+   delete / iterator and the writer pool), interval algebra: Common/Telem.v.
+   Histories: any list of Open / Write / Commit / Close / Delete over any number of
+   concurrently open writers on one channel, with any file-choice oracle values.
+   [legal_run] only asks that every stamp is a non-negative int64 and that no data file
+   reaches 2^32 bytes (pointer offsets and sizes are uint32 in the Go code). *)
+From stdpp Require Import gmap.
+From Coq Require Import ZArith NArith List Bool.
+From Synnax Require Import Common.Telem Common.TelemProofs
+  Cesium.Domain Cesium.DomainProofs Cesium.DomainInv.
+Import ListNotations.
+Local Open Scope Z_scope.
+
+(* (1) The invariant holds in every reachable state, for every history. *)
+Theorem C03_inv_reachable : forall nominal cap ops,
+  legal_run (init nominal cap) ops -> Inv (run (init nominal cap) ops).
+Proof. intros. apply run_inv; [apply Inv_init|assumption]. Qed.
+Print Assumptions C03_inv_reachable.
+
+Theorem C03_inv_every_state : forall nominal cap ops,
+  legal_run (init nominal cap) ops ->
+  Forall (fun sr => Inv (fst sr)) (trace (init nominal cap) ops).
+Proof. intros. apply trace_inv; [apply Inv_init|assumption]. Qed.
+Print Assumptions C03_inv_every_state.
+
+(* What the invariant says, spelled out: the committed ranges are time-ordered and pairwise
+   non-overlapping (earlier position ends at or before the later one starts), non-empty,
+   and every pointer's bytes lie within its file. *)
+Theorem C03_no_overlap_within_files : forall nominal cap ops,
+  legal_run (init nominal cap) ops ->
+  let st := run (init nominal cap) ops in
+  (forall i j p q, getp (d_ptrs st) i = Some p -> getp (d_ptrs st) j = Some q -> i < j ->
+                   p_end p <= p_start q) /\
+  (forall p, In p (d_ptrs st) ->
+     0 <= p_start p < p_end p /\ p_end p <= ts_max /\
+     exists f, get_file (d_files st) (p_file p) = Some f /\
+               (p_off p + p_size p <= f_size f)%N /\ (0 < p_size p)%N).
+Proof.
+  intros nominal cap ops Hl st. destruct (C03_inv_reachable nominal cap ops Hl) as (Hok & Hpf & _).
+  fold st in Hok, Hpf. split.
+  - intros i j p q Hi Hj Hlt. exact (idx_ok_lookup_lt _ Hok i j p q Hi Hj Hlt).
+  - intros p Hp. destruct Hok as [_ Hwf]. rewrite Forall_forall in Hwf, Hpf.
+    destruct (Hwf p Hp) as [[[H0 _] [_ H1]] Hlt]. unfold p_start, p_end, ts_min in *.
+    split; [split; assumption|]. split; [assumption|]. exact (Hpf p Hp).
+Qed.
+Print Assumptions C03_no_overlap_within_files.
+
+(* (2) A failed operation (any error class) leaves the whole database state as it was: the
+   index, and therefore everything that can be read, is unchanged. *)
+Theorem C03_fail_atomic : forall st o st' r,
+  step st o = (st', r) -> r <> ROk ->
+  st' = st /\ d_ptrs st' = d_ptrs st /\ readable st' = readable st.
+Proof.
+  intros st o st' r Hs Hr. pose proof (step_fail_unchanged st o st' r Hs Hr) as ->. auto.
+Qed.
+Print Assumptions C03_fail_atomic.
+
+(* Opening a writer, writing uncommitted bytes and closing never change committed data. *)
+Theorem C03_uncommitted_ops_invisible : forall st o,
+  Inv st -> match o with Open _ _ _ _ | Write _ _ | Close _ => True | _ => False end ->
+  d_ptrs (fst (step st o)) = d_ptrs st /\ readable (fst (step st o)) = readable st.
+Proof. exact noncommit_preserves_readable. Qed.
+Print Assumptions C03_uncommitted_ops_invisible.
+
+(* Everything committed is readable: the iterator over TimeRangeMax enumerates every
+   pointer of the index, in order. *)
+Theorem C03_committed_is_readable : forall st, Inv st ->
+  readable st = map (fun p => (p_tr p, p_size p, content (d_files st) p)) (d_ptrs st).
+Proof. exact readable_all. Qed.
+Print Assumptions C03_committed_is_readable.
+
+(* (3) A writer whose start lies inside existing data fails to open (write-conflict
+   validation error, or the configuration error for an inverted preset end); nothing
+   changes. *)
+Theorem C03_open_inside_fails : forall st w s e k p,
+  Inv st -> ts_in_range s -> ts_in_range e -> d_writers st !! w = None ->
+  In p (d_ptrs st) -> contains_stamp (p_tr p) s = true ->
+  step st (Open w s e k) = (st, RErr (if cfg_validate s e then EConflict else EOther)).
+Proof. exact open_inside_fails. Qed.
+Print Assumptions C03_open_inside_fails.
+
+(* (4) A commit whose range [Start, commitEnd) overlaps a domain other than the writer's own
+   one fails with a validation-class error and changes nothing.  The hypotheses name the
+   live writer with pending bytes and the commit end that resolveCommitEnd yields; the own
+   pointer is the one a previous commit of this writer stored (C03_own_pointer_present
+   shows it is there in every history whose deletes respect the control gate). *)
+Theorem C03_commit_overlap_fails : forall st w wr f e k ce sw q,
+  d_writers st !! w = Some wr -> w_closed wr = false ->
+  w_preset wr && (w_end wr <? e) = false ->
+  get_file (d_files st) (w_file wr) = Some f -> f_len f <> 0%N ->
+  resolve_commit_end (d_cap st) wr e = (ce, sw) ->
+  Inv st -> ts_in_range e ->
+  (w_prev wr <> 0 -> exists i own, getp (d_ptrs st) i = Some own /\ p_start own = w_start wr) ->
+  In q (d_ptrs st) -> (w_prev wr <> 0 -> p_start q <> w_start wr) ->
+  overlaps_math (p_tr q) (mkTR (w_start wr) ce) ->
+  exists err, commit st w e k = (st, RErr err) /\ is_validation (RErr err) = true.
+Proof. intros. eapply commit_overlap_fails; eauto. Qed.
+Print Assumptions C03_commit_overlap_fails.
+
+(* A commit that moves backwards fails with a validation error.  The guard [sw && preset =
+   false] is the documented design exception: a writer with a preset end commits that
+   preset end, except on a file switch where it commits the given stamp. *)
+Theorem C03_commit_backwards_fails : forall st w wr f e k ce sw,
+  d_writers st !! w = Some wr -> w_closed wr = false ->
+  w_preset wr && (w_end wr <? e) = false ->
+  get_file (d_files st) (w_file wr) = Some f -> f_len f <> 0%N ->
+  resolve_commit_end (d_cap st) wr e = (ce, sw) ->
+  w_prev wr <> 0 -> sw && w_preset wr = false -> ce < w_prev wr ->
+  commit st w e k = (st, RErr EValidation).
+Proof. exact commit_backwards_fails. Qed.
+Print Assumptions C03_commit_backwards_fails.
+
+Theorem C03_commit_not_after_start_fails : forall st w wr f e k ce sw,
+  d_writers st !! w = Some wr -> w_closed wr = false ->
+  w_preset wr && (w_end wr <? e) = false ->
+  get_file (d_files st) (w_file wr) = Some f -> f_len f <> 0%N ->
+  resolve_commit_end (d_cap st) wr e = (ce, sw) ->
+  ce <= w_start wr ->
+  commit st w e k = (st, RErr EValidation).
+Proof. exact commit_not_after_start_fails. Qed.
+Print Assumptions C03_commit_not_after_start_fails.
+
+(* (5) The binary search used for conflict detection, on a well-formed index and an ordered
+   query: it reports an overlapping position if there is one, otherwise the predecessor
+   position (-1 before all, len-1 after all), with everything at or left of it ending at
+   or before the query start and everything right of it starting at or after the query
+   end. *)
+Theorem C03_search_spec : forall ps tr,
+  idx_ok ps -> tr_in_range tr -> tr_start tr <= tr_end tr ->
+  match usearch ps tr with
+  | (i, true) => exists p, getp ps i = Some p /\ overlaps_with (p_tr p) tr = true
+  | (i, false) =>
+      -1 <= i < zlen ps /\
+      (forall j p, getp ps j = Some p -> j <= i -> p_end p <= tr_start tr) /\
+      (forall j p, getp ps j = Some p -> i < j -> tr_start tr < p_start p /\ tr_end tr <= p_start p)
+  end.
+Proof. exact usearch_spec. Qed.
+Print Assumptions C03_search_spec.
+
+Theorem C03_search_complete : forall ps tr q,
+  idx_ok ps -> tr_in_range tr -> tr_start tr <= tr_end tr ->
+  In q ps -> overlaps_with (p_tr q) tr = true -> snd (usearch ps tr) = true.
+Proof. exact usearch_finds. Qed.
+Print Assumptions C03_search_complete.
+
+(* insert (with its append / prepend fast paths) either splices the pointer in at one
+   position of a still well-formed index, or — whenever it overlaps anything — refuses. *)
+Theorem C03_insert_spec : forall ps p,
+  idx_ok ps -> ptr_wf p ->
+  (forall ps', insert ps p = inl ps' ->
+     idx_ok ps' /\ exists n, ps' = firstn n ps ++ p :: skipn n ps) /\
+  (forall q, (p_file p <> 0)%N -> In q ps -> overlaps_math (p_tr q) (p_tr p) ->
+     insert ps p = inr EConflict).
+Proof.
+  intros ps p Hok Hwf. split.
+  - intros ps' H. exact (insert_ok ps p ps' Hok Hwf H).
+  - intros q Hf Hq Hov. exact (insert_conflict ps p q Hok Hwf Hf Hq Hov).
+Qed.
+Print Assumptions C03_insert_spec.
+
+(* OverlapsWith on ordered representable ranges is the mathematical half-open overlap test
+   (equal starts, or each starts before the other ends). *)
+Theorem C03_overlaps_with_spec : forall a b,
+  tr_in_range a -> tr_in_range b -> tr_start a <= tr_end a -> tr_start b <= tr_end b ->
+  (overlaps_with a b = true <->
+   tr_start a = tr_start b \/ (tr_start a < tr_end b /\ tr_start b < tr_end a)).
+Proof. exact overlaps_with_spec. Qed.
+Print Assumptions C03_overlaps_with_spec.
+
+(* The two defects this check found in the pinned upstream tree (both repaired by fix:
+   commits in /repo; the model copies the repaired code): *)
+(* F18 — validateCommitRange skipped the backwards test on every file switch. *)
+Theorem C03_upstream_backwards_refuted :
+  exists wr e, w_prev wr <> 0 /\ e < w_prev wr /\ w_preset wr = false /\
+    validate_commit_range_upstream wr e true = true /\ validate_commit_range wr e true = false.
+Proof. exact upstream_backwards_refuted. Qed.
+Print Assumptions C03_upstream_backwards_refuted.
+
+(* F19 — WriterConfig.Validate returned nil: an inverted preset end opened a writer at the
+   start of existing data. *)
+Theorem C03_upstream_inverted_end_refuted :
+  exists p s e, contains_stamp (p_tr p) s = true /\ cfg_validate_upstream s e = true /\
+    idx_overlap [p] (cfg_domain s e) = false /\ cfg_validate s e = false.
+Proof. exact upstream_inverted_end_refuted. Qed.
+Print Assumptions C03_upstream_inverted_end_refuted.
+
+(* Non-vacuity: a legal history with three writers, a file switch, adjacency, a refused
+   open inside data, a refused overlapping commit, a refused backwards commit and a
+   splitting delete; it ends with four domains. *)
+Definition ex_ops : list op :=
+  [ Open 1 10 0 0; Write 1 [1;2;3;4;5]%N; Commit 1 20 0;          (* [10,20) *)
+    Open 2 15 0 0;                                                  (* refused: inside *)
+    Open 2 30 0 0; Write 2 [6;7]%N; Commit 2 40 0;                 (* [30,40) *)
+    Open 3 20 0 0; Write 3 [8;9;10]%N; Commit 3 35 0;              (* refused: overlaps [30,40) *)
+    Commit 3 30 0;                                                  (* [20,30) adjacent both sides *)
+    Commit 1 15 0;                                                  (* refused: backwards *)
+    Write 2 [11;12;13;14;15;16;17;18;19]%N; Commit 2 50 0;          (* file switch at cap 10 *)
+    Delete 12 14 ]%Z.
+Example C03_nonvacuous :
+  legal_run (init 8 10) ex_ops /\
+  map snd (trace (init 8 10) ex_ops) =
+    [ROk; ROk; ROk; RErr EConflict; ROk; ROk; ROk; ROk; ROk; RErr EConflict; ROk;
+     RErr EValidation; ROk; ROk; ROk] /\
+  map (fun p => (p_start p, p_end p, p_size p)) (d_ptrs (run (init 8 10) ex_ops)) =
+    [(10, 12, 2%N); (14, 20, 1%N); (20, 30, 3%N); (30, 50, 11%N)].
+Proof.
+  split; [|split]; [|vm_compute; reflexivity|vm_compute; reflexivity].
+  unfold ex_ops. simpl legal_run.
+  repeat split; try (vm_compute; intuition congruence); try exact I;
+  try (intros wr f Hw Hf; vm_compute in Hw; inversion Hw; subst; vm_compute in Hf; inversion Hf; subst; vm_compute; reflexivity).
+Qed.
